@@ -43,6 +43,21 @@ theorem slice_partition (t : List α) (a b : Nat) (h : a ≤ b) :
   rw [h1, List.take_append_drop, List.take_append_drop]
 end helpers
 
+/-- (46db376) an operator typed with a register name that does not exist does nothing -/
+theorem opDelete_bad (s : St) (o : TextObject) (reg : Option Char) (change : Bool)
+    (hb : badReg reg = true) : opDelete s o reg change = some s := by
+  unfold opDelete; rw [if_pos hb]
+
+theorem opDelete_good (s : St) (o : TextObject) (reg : Option Char) (change : Bool)
+    (hb : badReg reg = false) :
+    opDelete s o reg change =
+      match cut s.doc o with
+      | none => none
+      | some (d', c) =>
+        let s1 := store { s with text := d'.text, cur := d'.cur } reg c
+        some { s1 with insert := s1.insert || change } := by
+  unfold opDelete; rw [if_neg (by simp [hb])]; rfl
+
 theorem sorted_le (o : TextObject) : o.sorted.1 ≤ o.sorted.2 := by
   unfold TextObject.sorted; split <;> simp <;> omega
 
@@ -129,9 +144,13 @@ theorem empty_span_noop (env : Env) (s s' : St) (op : Op) (o : TextObject) (coun
     intro x reg; unfold store; simp
   cases op with
   | delete reg =>
-    simp [applyOp, opDelete, hcut, hst] at h; subst h; simp [St.doc]
+    cases hb : badReg reg
+    · simp [applyOp, opDelete_good _ _ _ _ hb, hcut, hst] at h; subst h; simp [St.doc]
+    · simp [applyOp, opDelete_bad _ _ _ _ hb] at h; subst h; simp
   | change reg =>
-    simp [applyOp, opDelete, hcut, hst] at h; subst h; simp [St.doc]
+    cases hb : badReg reg
+    · simp [applyOp, opDelete_good _ _ _ _ hb, hcut, hst] at h; subst h; simp [St.doc]
+    · simp [applyOp, opDelete_bad _ _ _ _ hb] at h; subst h; simp
   | yank reg =>
     simp only [applyOp, opYank, hcut, hst] at h
     split at h
@@ -473,12 +492,13 @@ theorem store_spec (s : St) (reg : Option Char) (c : Clip) :
 /-- `d` / `c`: the buffer becomes the cut document, the cut data goes through `store`,
     `c` additionally enters insert mode -/
 theorem delete_spec (s s' : St) (o : TextObject) (reg : Option Char) (change : Bool)
+    (hb : badReg reg = false)
     (h : opDelete s o reg change = some s') :
     ∃ d' c, cut s.doc o = some (d', c) ∧ s'.text = d'.text ∧ s'.cur = d'.cur ∧
       s'.insert = (s.insert || change) ∧
       s'.clip = (store { s with text := d'.text, cur := d'.cur } reg c).clip ∧
       s'.regs = (store { s with text := d'.text, cur := d'.cur } reg c).regs := by
-  unfold opDelete at h
+  rw [opDelete_good _ _ _ _ hb] at h
   split at h
   · simp at h
   · rename_i d' c hc
@@ -501,7 +521,7 @@ theorem delete_charwise_exact (s s' : St) (o : TextObject) (change : Bool)
       s'.clip = { text := (s.text.take b).drop a, lines := false } ∧ s'.regs = s.regs ∧
       s.text = s'.text.take s'.cur ++ s'.clip.text ++ s'.text.drop s'.cur := by
   obtain ⟨a, b, ha, hb, hab, hcut⟩ := cut_charwise s.doc o hr ht hne
-  obtain ⟨d', c, hc, e1, e2, _, e4, e5⟩ := delete_spec s s' o none change h
+  obtain ⟨d', c, hc, e1, e2, _, e4, e5⟩ := delete_spec s s' o none change rfl h
   rw [hcut] at hc
   simp at hc
   obtain ⟨hd, hcl⟩ := hc
@@ -556,7 +576,7 @@ theorem delete_linewise_exact (s s' : St) (o : TextObject) (change : Bool)
       ∃ nl : Text, (nl = [] ∨ nl = ['\n']) ∧
         s.text = s'.text.take s'.cur ++ (s'.clip.text ++ nl) ++ s'.text.drop s'.cur := by
   obtain ⟨a, b, hab, hbl, c1, c2, c3, c4, _, _, hcut⟩ := cut_linewise s.doc o hr ht
-  obtain ⟨d', c, hc, e1, e2, _, e4, e5⟩ := delete_spec s s' o none change h
+  obtain ⟨d', c, hc, e1, e2, _, e4, e5⟩ := delete_spec s s' o none change rfl h
   rw [hcut] at hc
   simp at hc
   obtain ⟨hd, hcl⟩ := hc
@@ -1033,6 +1053,213 @@ theorem textObject_inRange_repeat (isSpace sp : Char → Bool) (d : Doc) (h : In
         · simp only []; rw [if_pos hm]; apply inRange_of_start d h <;> omega
         · simp only []; rw [if_neg hm]; exact inRange_zero d h _
 
+/-! ### the motions ge gE g_ | % { } ap H M L gm -/
+
+theorem runsAux_strict (cl : Char → Nat) (pos : Nat) (st : Option (Nat × Nat)) (l : Text)
+    (hst : ∀ s0 k, st = some (s0, k) → s0 < pos) :
+    ∀ m ∈ runsAux cl pos st l, m.1 < m.2 := by
+  induction l generalizing pos st with
+  | nil =>
+    intro m hm
+    cases st with
+    | none => simp [runsAux] at hm
+    | some p =>
+      obtain ⟨s0, k⟩ := p
+      simp [runsAux] at hm
+      subst hm
+      exact hst s0 k rfl
+  | cons c r ih =>
+    intro m hm
+    cases st with
+    | none =>
+      unfold runsAux at hm
+      split at hm
+      · exact ih (pos + 1) none (by intro _ _ h; cases h) m hm
+      · exact ih (pos + 1) (some (pos, cl c)) (by intro s0 k h; cases h; omega) m hm
+    | some p =>
+      obtain ⟨s0, k⟩ := p
+      have hs0 := hst s0 k rfl
+      unfold runsAux at hm
+      split at hm
+      · exact ih (pos + 1) (some (s0, k)) (by intro s1 k1 h; cases h; omega) m hm
+      · simp only [List.mem_cons] at hm
+        rcases hm with hm | hm
+        · subst hm; exact hs0
+        · split at hm
+          · exact ih (pos + 1) none (by intro _ _ h; cases h) m hm
+          · exact ih (pos + 1) (some (pos, cl c)) (by intro s1 k1 h; cases h; omega) m hm
+
+theorem runs_strict (cl : Char → Nat) (l : Text) (m : Nat × Nat) (h : m ∈ runs cl l) : m.1 < m.2 :=
+  runsAux_strict cl 0 none l (by intro _ _ h; cases h) m h
+
+theorem findPreviousWordEnding_bound (sp : Char → Bool) (d : Doc) (h : Inv d) (count : Nat) (big : Bool)
+    (p : Int) (hp : findPreviousWordEnding sp d count big = some p) :
+    p - 1 ≤ 0 ∧ 0 ≤ (d.cur : Int) + (p - 1) := by
+  have hi : d.cur ≤ d.text.length := h
+  unfold findPreviousWordEnding at hp
+  simp only [] at hp
+  obtain ⟨m, hn, hm⟩ := Option.map_eq_some_iff.1 hp
+  have hmem := nth_mem _ _ _ hn
+  have b1 := runs_bound _ _ m hmem
+  have b2 := runs_strict _ _ m hmem
+  have hlen : (d.after.take 1 ++ d.before.reverse).length ≤ d.cur + 1 := by
+    simp [Doc.after, Doc.before]; omega
+  omega
+
+theorem enclosingRight_bound (d : Doc) (h : Inv d) (l r : Char) (e : Int)
+    (he : enclosingRight d l r = some e) : 0 ≤ e ∧ (d.cur : Int) + e + 1 ≤ d.text.length := by
+  have hi : d.cur ≤ d.text.length := h
+  unfold enclosingRight at he
+  split at he
+  · rename_i hc
+    unfold currentChar at hc
+    have := (List.getElem?_eq_some_iff.1 hc).1
+    simp at he; omega
+  · obtain ⟨k, hk, hk'⟩ := Option.map_eq_some_iff.1 he
+    have := walk_bound _ _ _ _ _ _ hk
+    simp at this
+    omega
+
+theorem enclosingLeft_bound (d : Doc) (l r : Char) (s : Int)
+    (hs : enclosingLeft d l r = some s) : s ≤ 0 ∧ 0 ≤ (d.cur : Int) + s := by
+  unfold enclosingLeft at hs
+  split at hs
+  · simp at hs; omega
+  · obtain ⟨k, hk, hk'⟩ := Option.map_eq_some_iff.1 hs
+    have := walk_bound _ _ _ _ _ _ hk
+    simp [Doc.before] at this
+    omega
+
+theorem matchingBracketGo_bound (d : Doc) (h : Inv d) (ps : List (Char × Char)) :
+    0 ≤ (d.cur : Int) + matchingBracketGo d ps ∧
+      ((d.cur : Int) + matchingBracketGo d ps + 1 ≤ d.text.length ∨ matchingBracketGo d ps = 0) := by
+  have hi : d.cur ≤ d.text.length := h
+  induction ps with
+  | nil => simp [matchingBracketGo]
+  | cons p ps ih =>
+    obtain ⟨a, b⟩ := p
+    unfold matchingBracketGo
+    split
+    · rename_i hc
+      have hlt : d.cur < d.text.length := by
+        unfold currentChar at hc; exact (List.getElem?_eq_some_iff.1 hc).1
+      cases he : enclosingRight d a b with
+      | none => simp [matchingBracketGo.orZero']
+      | some e =>
+        have := enclosingRight_bound d h a b e he
+        simp only [matchingBracketGo.orZero']
+        omega
+    · split
+      · rename_i hc
+        have hlt : d.cur < d.text.length := by
+          unfold currentChar at hc; exact (List.getElem?_eq_some_iff.1 hc).1
+        cases he : enclosingLeft d a b with
+        | none => simp [matchingBracketGo.orZero']
+        | some e =>
+          have := enclosingLeft_bound d a b e he
+          simp only [matchingBracketGo.orZero']
+          omega
+      · exact ih
+
+theorem startOfParagraph_bound (isSpace : Char → Bool) (d : Doc) (h : Inv d) (count : Nat) (before : Bool) :
+    startOfParagraph isSpace d count before ≤ 0 ∧ 0 ≤ (d.cur : Int) + startOfParagraph isSpace d count before := by
+  have hi : d.cur ≤ d.text.length := h
+  unfold startOfParagraph
+  split
+  · rename_i i _
+    have := rowColToIndex_le d.text (d.row - (i + 1)) d.col
+    split <;> omega
+  · omega
+
+theorem endOfParagraph_bound (isSpace : Char → Bool) (d : Doc) (h : Inv d) (count : Nat) (after : Bool) :
+    0 ≤ endOfParagraph isSpace d count after ∧
+      (d.cur : Int) + endOfParagraph isSpace d count after ≤ d.text.length := by
+  have hi : d.cur ≤ d.text.length := h
+  unfold endOfParagraph
+  split
+  · rename_i i _
+    have := rowColToIndex_le d.text (d.row + (i + 1)) d.col
+    split <;> omega
+  · simp [Doc.after]; omega
+
+theorem rstrip_length_le (isSpace : Char → Bool) (l : Text) : (rstrip isSpace l).length ≤ l.length := by
+  unfold rstrip
+  have := length_dropWhile_le' isSpace l.reverse
+  simpa using this
+
+theorem textObject_inRange_new (isSpace sp : Char → Bool) (d : Doc) (h : Inv d) (count : Nat) :
+    (∀ big, InRange d (textObject isSpace sp d count (.ge big))) ∧
+    InRange d (textObject isSpace sp d count .gUnder) ∧
+    InRange d (textObject isSpace sp d count .bar) ∧
+    (∀ ap, InRange d (textObject isSpace sp d count (.percent ap))) ∧
+    InRange d (textObject isSpace sp d count .braceUp) ∧
+    InRange d (textObject isSpace sp d count .braceDown) ∧
+    InRange d (textObject isSpace sp d count .ap) ∧
+    (∀ w r, InRange d (textObject isSpace sp d count (.screen w r))) ∧
+    (∀ w, InRange d (textObject isSpace sp d count (.gm w))) := by
+  have hi : d.cur ≤ d.text.length := h
+  have hc := col_eq d h
+  have hlb := lineBefore_length d
+  have hla := lineAfter_length d
+  have hcl : (currentLine d).length = (lineBefore d).length + (lineAfter d).length := by simp [currentLine]
+  refine ⟨?_, ?_, ?_, ?_, ?_, ?_, ?_, ?_, ?_⟩
+  · intro big
+    simp only [textObject]
+    cases hf : findPreviousWordEnding sp d count big with
+    | none => exact inRange_zero d h _
+    | some p =>
+      have := findPreviousWordEnding_bound sp d h count big p hf
+      apply inRange_of_start d h <;> omega
+  · simp only [textObject]
+    split
+    · exact inRange_zero d h _
+    · have := rstrip_length_le isSpace (currentLine d)
+      apply inRange_of_start d h <;> omega
+  · simp only [textObject]
+    apply inRange_of_start d h <;> omega
+  · intro ap
+    simp only [textObject]
+    split
+    · split
+      · have := rowColToIndex_le d.text ((count * lineCount d.text - 1) / 100) 0
+        apply inRange_of_start d h <;> omega
+      · exact inRange_zero d h _
+    · split
+      · rename_i hne
+        have := matchingBracketGo_bound d h bracketPairs
+        unfold matchingBracket at hne ⊢
+        apply inRange_of_start d h <;> omega
+      · exact inRange_zero d h _
+  · simp only [textObject]
+    have := startOfParagraph_bound isSpace d h count true
+    apply inRange_of_start d h <;> omega
+  · simp only [textObject]
+    have := endOfParagraph_bound isSpace d h count true
+    apply inRange_of_start d h <;> omega
+  · simp only [textObject]
+    have a := startOfParagraph_bound isSpace d h 1 false
+    have b := endOfParagraph_bound isSpace d h count false
+    unfold InRange; simp only []; omega
+  · intro w r
+    simp only [textObject]
+    cases r with
+    | some r =>
+      have := rowColToIndex_le d.text r 0
+      simp only []
+      apply inRange_of_start d h <;> omega
+    | none =>
+      simp only []
+      cases w <;> (simp only []; apply inRange_of_start d h <;> simp [Doc.after, Doc.before] <;> omega)
+  · intro w
+    simp only [textObject]
+    cases w with
+    | some w =>
+      simp only []
+      split
+      · exact inRange_zero d h _
+      · apply inRange_of_start d h <;> omega
+    | none => exact inRange_zero d h _
+
 /-- every modelled motion / text object yields offsets inside the text -/
 theorem textObject_inRange (isSpace sp : Char → Bool) (d : Doc) (h : Inv d) (count : Nat) (m : Motion)
     (hm : ∀ o, m ≠ .raw o) : InRange d (textObject isSpace sp d count m) := by
@@ -1058,6 +1285,15 @@ theorem textObject_inRange (isSpace sp : Char → Bool) (d : Doc) (h : Inv d) (c
   | bracket l r inner => exact textObject_inRange_bracket isSpace sp d h count l r inner
   | quote q inner => exact textObject_inRange_quote isSpace sp d h count q inner
   | repeatFind last reverse => exact textObject_inRange_repeat isSpace sp d h count last reverse
+  | ge big => exact (textObject_inRange_new isSpace sp d h count).1 big
+  | gUnder => exact (textObject_inRange_new isSpace sp d h count).2.1
+  | bar => exact (textObject_inRange_new isSpace sp d h count).2.2.1
+  | percent ap => exact (textObject_inRange_new isSpace sp d h count).2.2.2.1 ap
+  | braceUp => exact (textObject_inRange_new isSpace sp d h count).2.2.2.2.1
+  | braceDown => exact (textObject_inRange_new isSpace sp d h count).2.2.2.2.2.1
+  | ap => exact (textObject_inRange_new isSpace sp d h count).2.2.2.2.2.2.1
+  | screen w r => exact (textObject_inRange_new isSpace sp d h count).2.2.2.2.2.2.2.1 w r
+  | gm w => exact (textObject_inRange_new isSpace sp d h count).2.2.2.2.2.2.2.2 w
   | raw o => exact absurd rfl (hm o)
 
 /-! ### no operator ever leaves the model's domain; the cursor stays inside the text -/
@@ -1093,23 +1329,27 @@ theorem applyOp_ok (env : Env) (s : St) (op : Op) (o : TextObject) (count : Nat)
   have hd2 : s.doc.text = s.text := rfl
   cases op with
   | delete reg =>
-    cases hres : applyOp env s (.delete reg) o count with
-    | none => simp [applyOp, opDelete, hc] at hres
-    | some s' =>
-      refine ⟨s', rfl, ?_⟩
-      simp only [applyOp, opDelete, hc] at hres
-      simp at hres; subst hres
-      simp only []
-      rw [(store_text _ _ _).1, (store_text _ _ _).2.1]; exact hd'
+    cases hb : badReg reg
+    · cases hres : applyOp env s (.delete reg) o count with
+      | none => simp [applyOp, opDelete_good _ _ _ _ hb, hc] at hres
+      | some s' =>
+        refine ⟨s', rfl, ?_⟩
+        simp only [applyOp, opDelete_good _ _ _ _ hb, hc] at hres
+        simp at hres; subst hres
+        simp only []
+        rw [(store_text _ _ _).1, (store_text _ _ _).2.1]; exact hd'
+    · exact ⟨s, by simp [applyOp, opDelete_bad _ _ _ _ hb], hi⟩
   | change reg =>
-    cases hres : applyOp env s (.change reg) o count with
-    | none => simp [applyOp, opDelete, hc] at hres
-    | some s' =>
-      refine ⟨s', rfl, ?_⟩
-      simp only [applyOp, opDelete, hc] at hres
-      simp at hres; subst hres
-      simp only []
-      rw [(store_text _ _ _).1, (store_text _ _ _).2.1]; exact hd'
+    cases hb : badReg reg
+    · cases hres : applyOp env s (.change reg) o count with
+      | none => simp [applyOp, opDelete_good _ _ _ _ hb, hc] at hres
+      | some s' =>
+        refine ⟨s', rfl, ?_⟩
+        simp only [applyOp, opDelete_good _ _ _ _ hb, hc] at hres
+        simp at hres; subst hres
+        simp only []
+        rw [(store_text _ _ _).1, (store_text _ _ _).2.1]; exact hd'
+    · exact ⟨s, by simp [applyOp, opDelete_bad _ _ _ _ hb], hi⟩
   | yank reg =>
     simp only [applyOp, opYank, hc]
     cases reg with
@@ -1508,7 +1748,7 @@ theorem yank_stores_what_delete_stores (s sy sd : St) (o : TextObject) (change :
     (hy : opYank s o none = some sy) (hd : opDelete s o none change = some sd) :
     sy.clip = sd.clip ∧ sy.regs = sd.regs := by
   unfold opYank at hy
-  unfold opDelete at hd
+  rw [opDelete_good _ _ _ _ rfl] at hd
   cases hc : cut s.doc o with
   | none => simp [hc] at hy
   | some p =>
@@ -1684,9 +1924,10 @@ theorem col0_rule_drops_newline (d : Doc) (o : TextObject) (h : InRange d o) (ht
 
 /-- `c` edits exactly like `d`; it only enters insert mode in addition -/
 theorem change_eq_delete (s sd sc : St) (o : TextObject) (reg : Option Char)
+    (hb : badReg reg = false)
     (hd : opDelete s o reg false = some sd) (hc : opDelete s o reg true = some sc) :
     sc = { sd with insert := true } := by
-  unfold opDelete at hd hc
+  rw [opDelete_good _ _ _ _ hb] at hd hc
   cases hcut : cut s.doc o with
   | none => simp [hcut] at hd
   | some p =>
@@ -1708,7 +1949,7 @@ theorem delete_charwise_register (s s' : St) (o : TextObject) (change : Bool) (r
       regGet s'.regs r = some { text := (s.text.take b).drop a, lines := false } ∧
       (∀ m, m ≠ r → regGet s'.regs m = regGet s.regs m) ∧ s'.clip = s.clip := by
   obtain ⟨a, b, ha, hb, hab, hcut⟩ := cut_charwise s.doc o hr ht hne
-  obtain ⟨d', c, hc, e1, e2, _, e4, e5⟩ := delete_spec s s' o (some r) change h
+  obtain ⟨d', c, hc, e1, e2, _, e4, e5⟩ := delete_spec s s' o (some r) change (by simp [badReg, hreg]) h
   rw [hcut] at hc
   simp at hc
   obtain ⟨hd, hcl⟩ := hc
@@ -1826,7 +2067,7 @@ theorem delete_any_motion (env : Env) (s : St) (opArg motArg : Option Nat) (m : 
         have hal : a = s.text.length := by
           have : (a : Int) ≤ s.text.length := by split at b3 <;> omega
           omega
-        unfold opDelete at hdel
+        rw [opDelete_good _ _ _ _ rfl] at hdel
         rw [hcut] at hdel
         simp only [] at hdel
         have hempty : (s.doc.text.take b).drop a = [] := by
